@@ -214,7 +214,7 @@ TPOut == /\ IsEv("POut") /\ mode \in {"P", "Q", "E"} /\ sync /\ enc.al
                  /\ got' = got \o e.b /\ UNCHANGED <<q, cu>>
          /\ UNCHANGED <<mode, a, cur, sync, enc>>
 \* access units not aligned with the PES packets: the octets come out as one stream, in order, nothing added; the
-\* k-th PES carries the dates of the k-th access unit and begins at most one TS payload (183 octets) before it
+\* k-th PES carries the dates of the k-th access unit and begins at most one TS payload (184 octets: what a packet without adaptation field carries) before it
 TPOutN == /\ IsEv("POut") /\ mode = "E" /\ sync /\ ~enc.al
           /\ LET e == Tr[l]
                  n == Len(e.b)
@@ -223,7 +223,7 @@ TPOutN == /\ IsEv("POut") /\ mode = "E" /\ sync /\ ~enc.al
                 /\ IF B(e.start)
                    THEN /\ enc.k < Len(enc.us)
                         /\ DatesOK(e, enc.us[enc.k + 1])
-                        /\ enc.pos <= enc.starts[enc.k + 1] /\ enc.starts[enc.k + 1] - enc.pos <= 183
+                        /\ enc.pos <= enc.starts[enc.k + 1] /\ enc.starts[enc.k + 1] - enc.pos <= 184
                         /\ enc' = [enc EXCEPT !.pos = @ + n, !.k = @ + 1]
                    ELSE enc.k > 0 /\ enc' = [enc EXCEPT !.pos = @ + n]
           /\ UNCHANGED <<mode, a, cur, sync, q, cu, got>>
